@@ -136,7 +136,7 @@ fn monotone_pm1<T: Dom>(n: usize, k: usize) {
         }
     }
 }
-pub fn units(tier: Tier, _seed: u64) -> Vec<Unit> {
+pub fn units(tier: Tier, seed: u64) -> Vec<Unit> {
     let ns: Vec<usize> = if tier == Tier::Quick { vec![3, 4] } else { vec![3, 4, 5, 6] };
     let mut u = vec![];
     for &n in &ns {
@@ -151,12 +151,21 @@ pub fn units(tier: Tier, _seed: u64) -> Vec<Unit> {
         }
         if n <= 4 { u.push(unit!(format!("C06/NET-order-only/N={n}/k={k}"), net_order(n, k))); }
     }
+    let big: Vec<(usize, usize)> = if tier == Tier::Quick { vec![(8, 12), (12, 16), (3, 40)] } else { vec![(7, 11), (8, 12), (12, 16), (16, 20), (3, 40), (4, 60)] };
+    let first = u.len();
+    for &(n, k) in &big {
+        u.push(unit!(format!("C06/CTI-definition/N={n}/k={k}/sample-path"), cti_def(n, k)));
+        u.push(unit!(format!("C06/CoG-definition/N={n}/k={k}/sample-path"), cog_def(n, k)));
+        u.push(unit!(format!("C06/NET-definition/N={n}/k={k}/sample-path"), net_def(n, k)));
+        u.push(unit!(format!("C06/NET-negation/N={n}/k={k}/sample-path"), net_neg(n, k)));
+    }
+    for (i, x) in u.iter_mut().enumerate().skip(first) { x.concolic = Some(seed * 31 + 1 + (i as u64 % 2)); x.budget_s = 60.0; x.max_decisions = 60000; }
     u
 }
 pub fn meta() -> Meta {
     Meta {
         functions: vec!["CorrelationTrendIndicator::{new,update,last}", "NoiseEliminationTechnology::{new,update,last}", "CenterOfGravity::{new,update,last}", "Echo::{update,last}"],
-        bounds: "N in {3,4} (quick) / {3..6} (thorough; NET to 5, NET order-isomorphism to 4); k = N+2 (window full and shifted twice, so the oldest segment is exercised); inputs unconstrained reals; all comparison outcomes (for NET every pairwise order, ties included)",
+        bounds: "N in {3,4} (quick) / {3..6} (thorough; NET to 5, NET order-isomorphism to 4); k = N+2 (window full and shifted twice, so the oldest segment is exercised); inputs unconstrained reals; all comparison outcomes (for NET every pairwise order, ties included); in addition (N,k) in {(8,12),(12,16),(3,40)} (quick) / up to (16,20),(4,60) (thorough) along the comparison path of a pseudo-random sample input",
         outside: vec!["N > 6", "f64 rounding", "CTI '+1 on any strictly increasing window' is decided for linearly increasing windows: Pearson correlation of a strictly increasing but non-linear window with time is < 1 by definition, so the corollary as literally worded only holds for NET; see DESIGN.md"],
         assumptions: vec![],
     }
